@@ -54,6 +54,12 @@ class StackArr:
     def astype(self, dt, **k):
         return StackArr([c.astype(dt) for c in self.comps], _dtype_name(dt))
 
+    def pyvc_iterate(self):
+        return list(self.comps)  # iterating over the first axis yields the component arrays
+
+    def pyvc_len(self):
+        return len(self.comps)
+
 
 def _install_shape_add():
     def radd(self, other):
@@ -160,16 +166,32 @@ def install(eng):
             raise Unsupported("np.add.reduce outside the modelled call shape")
     NpModule.add = _Add()
 
+    def hypot(self, *args, **k):
+        """np.hypot(x1, x2[, out]): element-wise sqrt(x1^2 + x2^2); a third positional argument is the OUTPUT buffer"""
+        if k or not (2 <= len(args) <= 3):
+            raise PyRaise(PyExc(TypeError, (f"hypot() takes from 2 to 3 positional arguments but {len(args)} were given",)))
+        a, b = args[0], args[1]
+        if not (isinstance(a, VArr) and isinstance(b, VArr)):
+            raise Unsupported("np.hypot of non-arrays")
+        ta = a.term if z3.is_real(a.term) else z3.ToReal(a.term)
+        tb = b.term if z3.is_real(b.term) else z3.ToReal(b.term)
+        res = VArr(RSQRT(z3.simplify(ta * ta + tb * tb)), "float64", a.space)
+        if len(args) == 3:
+            out = args[2]
+            if not isinstance(out, VArr):
+                raise Unsupported("np.hypot out= non-array")
+            out.term = z3.simplify(_cast_term(res.term, "float64", out.dtype_name)) if out.dtype_name != "float64" else res.term
+            self.eng.event("arr-write", out.buf, out.owner)
+            return out
+        return res
+    NpModule.hypot = hypot
+
     def sqrt(self, a):
         if isinstance(a, VArr):
             t = a.term if z3.is_real(a.term) else z3.ToReal(a.term)
             return VArr(RSQRT(t), "float64", a.space)
         raise Unsupported("np.sqrt of a non-array")
     NpModule.sqrt = sqrt
-
-    def asarray(self, a, dtype=None):
-        raise Unsupported("np.asarray")
-    NpModule.asarray = asarray
 
     # mean of a selection dt[border]: an uninterpreted functional of (value function, selection set)
     def vsel_mean(self):
